@@ -45,6 +45,18 @@ def gen(rng, tier, idx):
                      "stack": r.chance(50),
                      "labels": {v: ("L%d" % v) if not weird else r.choice(["Solve 50% done", "100%% literal", "%d %s", "x" * 200, "é ñ"]) + " %d" % v
                                 for v in r.sample(range(1, 12), r.randint(0, 4))}}
+    rx = rng.derive("extremes")
+    if rx.chance(12):
+        # labels and titles of the greatest length the emulator accepts (511 characters), and one short of it
+        ty = rx.choice(sorted(types))
+        for v in list(types[ty]["labels"])[:2]:
+            n = rx.choice([511, 511, 510])
+            types[ty]["labels"][v] = ("%d:" % v + "y" * 600)[:n]
+        if rx.chance(40):
+            types[ty]["title"] = ("t%d:" % ty + "T" * 600)[:rx.choice([511, 510])]
+    # values over the whole 64-bit range (labels exist only for positive values: ovni_mark_label refuses the others)
+    wide = rx.chance(15)
+    WIDE = [-1, -3, -77, -2 ** 31, -2 ** 31 - 1, 2 ** 31, 2 ** 31 + 7, 2 ** 40 + 1, -2 ** 40, 2 ** 62, -2 ** 62]
     fault = r.choice(["pop-mismatch", "zero", "undefined", "redefine-type", "redefine-label", "wrong-op", "x-title", "x-chan", "x-label",
                       "label-undefined"]) if r.chance(40) else None
     if fault in ("x-title", "x-chan", "x-label") and nth < 2:
@@ -129,6 +141,8 @@ def gen(rng, tier, idx):
                 ty = r.choice(sorted(types))
                 d = types[ty]
                 val = r.choice(sorted(d["labels"])) if d["labels"] and r.chance(60) else 1 + r.below(50)
+                if wide and r.chance(40):
+                    val = r.choice(WIDE)
                 if d["stack"]:
                     if stacks[ty] and r.chance(45):
                         g.mark(t, "pop", ty, stacks[ty].pop())
